@@ -590,6 +590,14 @@ func Main(m *testing.M, property string) {
 	if files := os.Getenv("VERIF_MERGE"); files != "" {
 		os.Exit(mergeHashes(strings.Split(files, ":")))
 	}
+	for _, a := range os.Args {
+		if strings.HasPrefix(a, "-test.fuzzworker") {
+			// native fuzzing worker process: the coordinator owns the shard result file
+			os.Unsetenv("VERIF_OUT")
+			os.Unsetenv("VERIF_HASHES")
+			os.Unsetenv("VERIF_JOURNAL")
+		}
+	}
 	loadFindings()
 	code := m.Run()
 	flush()
